@@ -181,9 +181,11 @@ def column(tkind, dkind, order='id', layout='one', case='same', quoted=False, K=
         doc, exp, _ = build(a)
         return {'document': doc, 'difference': _diff_text(doc, exp)}
 
-    return Harness(body, args, describe=describe, fixed=fix,
-                   bounds={'type': tkind, 'default': dkind, 'order': order, 'layout': layout, 'case': case, 'quoted': quoted,
-                           'legacy': legacy, 'K': K})
+    h = Harness(body, args, describe=describe, fixed=fix,
+                bounds={'type': tkind, 'default': dkind, 'order': order, 'layout': layout, 'case': case, 'quoted': quoted,
+                        'legacy': legacy, 'K': K})
+    h.build = lambda a: build(dict(a, **(fix or {})))[:2]
+    return h
 
 
 # ---- table header and body ------------------------------------------------------------------------
@@ -244,7 +246,9 @@ def table(body_order, note_form, case='same', K=2, fix=None):
         doc, exp = build(a)
         return {'document': doc, 'difference': _diff_text(doc, exp)}
 
-    return Harness(body, args, describe=describe, fixed=fix, bounds={'body_order': body_order, 'note_form': note_form, 'case': case, 'K': K})
+    h = Harness(body, args, describe=describe, fixed=fix, bounds={'body_order': body_order, 'note_form': note_form, 'case': case, 'K': K})
+    h.build = lambda a: build(dict(a, **(fix or {})))[:2]
+    return h
 
 
 # ---- index ----------------------------------------------------------------------------------------
@@ -306,7 +310,9 @@ def index(shape, itype, layout='one', case='same', K=2, fix=None):
         doc, exp, _ = build(a)
         return {'document': doc, 'difference': _diff_text(doc, exp)}
 
-    return Harness(body, args, describe=describe, fixed=fix, bounds={'shape': shape, 'type': itype, 'layout': layout, 'case': case, 'K': K})
+    h = Harness(body, args, describe=describe, fixed=fix, bounds={'shape': shape, 'type': itype, 'layout': layout, 'case': case, 'K': K})
+    h.build = lambda a: build(dict(a, **(fix or {})))[:2]
+    return h
 
 
 # ---- enum -----------------------------------------------------------------------------------------
@@ -344,7 +350,9 @@ def enum(case='same', K=2, fix=None):
         doc, exp, _ = build(a)
         return {'document': doc, 'difference': _diff_text(doc, exp)}
 
-    return Harness(body, args, describe=describe, fixed=fix, bounds={'case': case, 'K': K})
+    h = Harness(body, args, describe=describe, fixed=fix, bounds={'case': case, 'K': K})
+    h.build = lambda a: build(dict(a, **(fix or {})))[:2]
+    return h
 
 
 # ---- references -----------------------------------------------------------------------------------
@@ -408,7 +416,9 @@ def reference(form, addr1, addr2, composite=False, case='same', K=2, fix=None):
         doc, exp = build(a)
         return {'document': doc, 'difference': _diff_text(doc, exp)}
 
-    return Harness(body, args, describe=describe, fixed=fix, bounds={'form': form, 'addr': [addr1, addr2], 'composite': composite, 'case': case, 'K': K})
+    h = Harness(body, args, describe=describe, fixed=fix, bounds={'form': form, 'addr': [addr1, addr2], 'composite': composite, 'case': case, 'K': K})
+    h.build = lambda a: build(dict(a, **(fix or {})))[:2]
+    return h
 
 
 # ---- group / project / sticky / whole document ----------------------------------------------------
@@ -458,7 +468,9 @@ def others(case='same', K=2, fix=None):
         doc, exp = build(a)
         return {'document': doc, 'difference': _diff_text(doc, exp)}
 
-    return Harness(body, args, describe=describe, fixed=fix, bounds={'case': case, 'K': K})
+    h = Harness(body, args, describe=describe, fixed=fix, bounds={'case': case, 'K': K})
+    h.build = lambda a: build(dict(a, **(fix or {})))[:2]
+    return h
 
 
 def equivalence(K=2):
